@@ -28,9 +28,9 @@ pub fn zlib_lensweep_comps() -> Vec<Comp> {
 
 pub fn grid_texts(ctx: &Ctx) -> Vec<(usize, usize)> {
     if ctx.quick() {
-        vec![(1, 4096), (2, 4096), (3, 3000)]
+        vec![(1, 4096), (2, 4096), (3, 3000), (8, 12_000)]
     } else {
-        vec![(0, 4096), (1, 4096), (2, 4096), (3, 3000), (4, 2048), (1, 65536), (2, 70000), (5, 200_000)]
+        vec![(0, 4096), (1, 4096), (2, 4096), (3, 3000), (4, 2048), (8, 12_000), (1, 65536), (2, 70000), (8, 140_000), (5, 200_000)]
     }
 }
 
@@ -85,6 +85,19 @@ pub fn shared_stream_spaces(ctx: &Ctx, st: &mut Local, f: Sink) {
     };
     let mut g = |st: &mut Local, e: &str, i: u64, c: &StreamCase, _k: &Comp| f(st, e, i, c);
     e6_compgrid(ctx, "E6", &comps, &grid_texts(ctx), st, &mut g);
+    // long plaintexts: u16 position reshift (0xfe08 / 0x7e00), 32 KiB window edges, 4 KiB add-policy boundaries
+    let bigcomps: Vec<Comp> = if ctx.quick() {
+        vec![Comp::Zlib(1, 0, 15, 8), Comp::Zlib(6, 0, 15, 8), Comp::Zlib(9, 0, 15, 9), Comp::Zlib(6, 0, 9, 1), Comp::Zlib(3, 3, 15, 8), Comp::Zlib(6, 2, 15, 8), Comp::Zlib(0, 0, 15, 8),
+            Comp::ZlibNg(1), Comp::ZlibNg(2), Comp::ZlibNg(6), Comp::Libdeflate(1), Comp::Libdeflate(6), Comp::Libdeflate(12), Comp::Miniz(1), Comp::Miniz(6), Comp::Miniz(10)]
+    } else {
+        let mut v = Vec::new();
+        for l in 0..=9 { for w in [9, 12, 15] { for m in [1, 8, 9] { v.push(Comp::Zlib(l, 0, w, m)); } } }
+        for s in 1..=4 { v.push(Comp::Zlib(6, s, 15, 8)); v.push(Comp::Zlib(2, s, 10, 3)); }
+        v.extend(comp::other_comps());
+        v
+    };
+    let bigtexts: Vec<(usize, usize)> = if ctx.quick() { vec![(8, 70_000), (1, 140_000)] } else { vec![(8, 70_000), (1, 140_000), (2, 100_000), (3, 200_000), (6, 66_000), (8, 300_000)] };
+    e6_compgrid(ctx, "E6big", &bigcomps, &bigtexts, st, &mut g);
     let sweep = if ctx.quick() { 96 } else { 512 };
     let kinds: &[usize] = if ctx.quick() { &[1, 3] } else { &[0, 1, 2, 3] };
     e6_lensweep(ctx, "E6len", &zlib_lensweep_comps(), kinds, sweep, st, &mut g);
@@ -413,8 +426,8 @@ pub fn run_c07(ctx: &Ctx, st: &mut Local) {
     };
     let both = Kinds { fixed: true, dynamic: true };
     if ctx.quick() {
-        e1_tokspace(ctx, "E1(2,11)", 2, 11, both, st, &mut f);
-        e1_tokspace(ctx, "E1(3,8)", 3, 8, both, st, &mut f);
+        e1_tokspace(ctx, "E1(2,12)", 2, 12, both, st, &mut f);
+        e1_tokspace(ctx, "E1(3,9)", 3, 9, both, st, &mut f);
     } else {
         e1_tokspace(ctx, "E1(2,14)", 2, 14, both, st, &mut f);
         e1_tokspace(ctx, "E1(3,10)", 3, 10, both, st, &mut f);
@@ -461,7 +474,13 @@ pub fn c04_stream_check(ctx: &Ctx, st: &mut Local, eng: &str, idx: u64, bytes: &
                 st.violation(ctx.viol(eng, idx, "current-rebuilds-reference-data-differently", None,
                     format!("current build rebuilds {} from reference-written corrections", hex_short(&re)), bytes));
             } else {
-                st.outcome(eng, "reference-data-rebuilt-exactly");
+                // label the trace with the parameter class the reference wrote (vacuity guard:
+                // shows which hash algorithms / add policies / matching types are reached)
+                let label = match caught(|| ctx.refb.estimate(bytes)) {
+                    Ok(Ok(v)) => format!("rebuilt[strategy={} hash={} add={} {}]", v[0], v[4], v[16], if v[12] > 0 { "lazy" } else { "greedy" }),
+                    _ => "rebuilt[?]".to_string(),
+                };
+                st.outcome(eng, &label);
             }
         }
     }
